@@ -3,9 +3,10 @@
 //	gen --seed S --tier T   write case lines (inputs only)
 //	impl                    read case lines, run the real code, append " => result"
 //
-// Case line:
+// A case is a HISTORY of operations on ONE route.Network value (AddLink and ShortestRoute calls
+// interleaved; the same query may be asked again after further links were added):
 //
-//	net <family> <X|F> <D|T> <nlinks> { <speed> <npts> <x y>... } <nqueries> { <fx fy tx ty> }
+//	net <family> <X|F> <D|T> <nops> { L <speed> <npts> <x y>... | Q <fx fy tx ty> }
 //
 // X = "exact" data: integer coordinates, axis-aligned link segments, power-of-two speeds, so every
 // float sum/quotient the implementation forms is exact and the judge compares exactly;
@@ -14,6 +15,8 @@
 // Result:
 //
 //	w <0|1> | G <nnodes> {<id> <x> <y>} <narcs> {<u> <v> <eu> <ev> <link> <weight|->} | R {ok <k> <link>... <dist> <time> <sd> <ed> ; | panic <msg> ;}
+//
+// (G is the adapter after the whole history; one R entry per Q in order.)
 //
 // `w` says whether the value handed to gonum's AStar (a route.Network VALUE, see ShortestRoute)
 // satisfies path.Weighted at run time; G is the adapter as gonum sees it (Nodes/From/Edge/Weight);
@@ -43,7 +46,11 @@ type link struct {
 	speed float64
 }
 
-type query struct{ from, to geom.Point }
+// after = number of links added before the query is asked (-1: after all of them)
+type query struct {
+	from, to geom.Point
+	after    int
+}
 
 type netCase struct {
 	fam   string
@@ -53,27 +60,73 @@ type netCase struct {
 	qs    []query
 }
 
+// ops returns the history: query k is asked when `after` links have been added.
+func (c *netCase) ops() []string {
+	var out []string
+	emitQ := func(n int) {
+		for _, q := range c.qs {
+			a := q.after
+			if a < 0 || a > len(c.links) {
+				a = len(c.links)
+			}
+			if a == 0 {
+				a = 1 // ShortestRoute on a network without nodes panics (no nearest node)
+			}
+			if a == n {
+				out = append(out, fmt.Sprintf("Q %s %s %s %s", vproto.F2H(q.from.X), vproto.F2H(q.from.Y), vproto.F2H(q.to.X), vproto.F2H(q.to.Y)))
+			}
+		}
+	}
+	for i, l := range c.links {
+		if i > 0 {
+			emitQ(i)
+		}
+		var b strings.Builder
+		fmt.Fprintf(&b, "L %s %d", vproto.F2H(l.speed), len(l.pts))
+		for _, p := range l.pts {
+			fmt.Fprintf(&b, " %s %s", vproto.F2H(p.X), vproto.F2H(p.Y))
+		}
+		out = append(out, b.String())
+	}
+	emitQ(len(c.links))
+	return out
+}
+
 func (c *netCase) String() string {
-	var b strings.Builder
 	x := "F"
 	if c.exact {
 		x = "X"
 	}
-	fmt.Fprintf(&b, "net %s %s %s %d", c.fam, x, c.opt, len(c.links))
-	for _, l := range c.links {
-		fmt.Fprintf(&b, " %s %d", vproto.F2H(l.speed), len(l.pts))
-		for _, p := range l.pts {
-			fmt.Fprintf(&b, " %s %s", vproto.F2H(p.X), vproto.F2H(p.Y))
-		}
-	}
-	fmt.Fprintf(&b, " %d", len(c.qs))
-	for _, q := range c.qs {
-		fmt.Fprintf(&b, " %s %s %s %s", vproto.F2H(q.from.X), vproto.F2H(q.from.Y), vproto.F2H(q.to.X), vproto.F2H(q.to.Y))
-	}
-	return b.String()
+	o := c.ops()
+	return fmt.Sprintf("net %s %s %s %d %s", c.fam, x, c.opt, len(o), strings.Join(o, " "))
 }
 
-func parseCase(line string) *netCase {
+// addHistory asks some of the final queries a first time earlier in the history (and the long-lived
+// Network must answer each time for the network as it is at that moment).
+func (c *netCase) addHistory(r *vproto.Rng, p float64) {
+	n := len(c.links)
+	if n < 2 {
+		return
+	}
+	base := append([]query(nil), c.qs...)
+	for _, q := range base {
+		if q.after >= 0 || !r.Chance(p) {
+			continue
+		}
+		c.qs = append(c.qs, query{q.from, q.to, r.Range(1, n-1)})
+		if r.Chance(0.3) {
+			c.qs = append(c.qs, query{q.from, q.to, r.Range(1, n-1)})
+		}
+	}
+}
+
+type op struct {
+	isLink bool
+	l      link
+	q      query
+}
+
+func parseCase(line string) (*netCase, []op) {
 	p := vproto.NewParser(line)
 	if p.Next() != "net" {
 		panic("bad line")
@@ -82,17 +135,23 @@ func parseCase(line string) *netCase {
 	c.exact = p.Next() == "X"
 	c.opt = p.Next()
 	n := p.Int()
+	var ops []op
 	for i := 0; i < n; i++ {
-		sp := p.F()
-		c.links = append(c.links, link{pts: p.Pts(), speed: sp})
+		switch p.Next() {
+		case "L":
+			sp := p.F()
+			l := link{pts: p.Pts(), speed: sp}
+			c.links = append(c.links, l)
+			ops = append(ops, op{isLink: true, l: l})
+		case "Q":
+			a := p.Pt()
+			b := p.Pt()
+			ops = append(ops, op{q: query{a, b, -1}})
+		default:
+			panic("bad op")
+		}
 	}
-	nq := p.Int()
-	for i := 0; i < nq; i++ {
-		a := p.Pt()
-		b := p.Pt()
-		c.qs = append(c.qs, query{a, b})
-	}
-	return c
+	return c, ops
 }
 
 // ---------------------------------------------------------------- generator
@@ -204,7 +263,7 @@ func (b *builder) queries(n int, spacing float64) {
 		}
 	}
 	for i := 0; i < n; i++ {
-		b.c.qs = append(b.c.qs, query{near(), near()})
+		b.c.qs = append(b.c.qs, query{near(), near(), -1})
 	}
 }
 
@@ -296,7 +355,7 @@ func genDiamond(r *vproto.Rng) *netCase {
 		x += float64(k) * step
 	}
 	b.shuffleLinks()
-	b.c.qs = append(b.c.qs, query{b.nodes[first], b.nodes[hub]}, query{b.nodes[hub], b.nodes[first]})
+	b.c.qs = append(b.c.qs, query{b.nodes[first], b.nodes[hub], -1}, query{b.nodes[hub], b.nodes[first], -1})
 	b.queries(4, 4)
 	return b.c
 }
@@ -328,7 +387,7 @@ func genFastSlow(r *vproto.Rng) *netCase {
 		b.joinExact(m, t, 0, 8)
 	}
 	b.shuffleLinks()
-	b.c.qs = append(b.c.qs, query{b.nodes[s], b.nodes[t]}, query{b.nodes[t], b.nodes[s]})
+	b.c.qs = append(b.c.qs, query{b.nodes[s], b.nodes[t], -1}, query{b.nodes[t], b.nodes[s], -1})
 	b.queries(3, step)
 	return b.c
 }
@@ -409,8 +468,189 @@ func genFloat(r *vproto.Rng, near bool) *netCase {
 		a := b.nodes[r.Intn(len(b.nodes))]
 		z := b.nodes[r.Intn(len(b.nodes))]
 		b.c.qs = append(b.c.qs, query{pt(a.X+(r.Float()-0.5)*scale*0.04, a.Y+(r.Float()-0.5)*scale*0.04),
-			pt(z.X+(r.Float()-0.5)*scale*0.04, z.Y+(r.Float()-0.5)*scale*0.04)})
+			pt(z.X+(r.Float()-0.5)*scale*0.04, z.Y+(r.Float()-0.5)*scale*0.04), -1})
 	}
+	return b.c
+}
+
+// a history on one network: two separate chains, a query across (empty route), then a joining link
+// and the SAME query, then a shortcut and the same query, then a faster link (Time) and the same
+// query — every answer must be right for the network as it is at that moment.
+func genHistory(r *vproto.Rng) *netCase {
+	b := newBuilder(r, "history", true)
+	k, m := r.Range(1, 5), r.Range(1, 5)
+	sp := float64(8 * r.Range(1, 3))
+	var as, bs []int
+	for i := 0; i <= k; i++ {
+		as = append(as, b.node(pt(float64(i)*sp, 0)))
+	}
+	for j := 0; j <= m; j++ {
+		bs = append(bs, b.node(pt(float64(k)*sp-float64(j)*sp, 8*sp)))
+	}
+	spd := func() float64 {
+		if b.c.opt == "T" {
+			return pow2(r)
+		}
+		return 1
+	}
+	for i := 0; i < k; i++ {
+		b.joinExact(as[i], as[i+1], float64(r.Intn(3)), spd())
+	}
+	for j := 0; j < m; j++ {
+		b.joinExact(bs[j], bs[j+1], float64(r.Intn(3)), spd())
+	}
+	a0, ak, b0, bm := b.nodes[as[0]], b.nodes[as[k]], b.nodes[bs[0]], b.nodes[bs[m]]
+	_ = ak
+	_ = b0
+	ask := func() {
+		n := len(b.c.links)
+		b.c.qs = append(b.c.qs, query{a0, bm, n}, query{pt(bm.X+1, bm.Y+0.5), pt(a0.X-1, a0.Y-0.5), n})
+		if r.Bool() {
+			b.c.qs = append(b.c.qs, query{b.nodes[as[r.Intn(k+1)]], b.nodes[bs[r.Intn(m+1)]], n})
+		}
+	}
+	ask()
+	b.joinExact(as[k], bs[0], 0, spd()) // joins the components
+	ask()
+	if r.Chance(0.7) {
+		ask() // repeated without any change in between
+	}
+	b.joinExact(as[0], bs[m], 0, spd()) // shortcut between the queried nodes
+	ask()
+	if k >= 1 && m >= 1 {
+		b.joinExact(as[r.Intn(k+1)], bs[r.Intn(m+1)], float64(r.Intn(2)), 16*spd()) // a faster link
+		ask()
+	}
+	return b.c
+}
+
+type bigNet struct {
+	b   *builder
+	idx map[geom.Point]int
+	u   float64
+}
+
+func newBig(r *vproto.Rng, fam string) *bigNet {
+	u := 1.0
+	if r.Bool() {
+		u = 1.0 / 128 // the same shapes, every distance far below 1
+	}
+	return &bigNet{b: newBuilder(r, fam, true), idx: map[geom.Point]int{}, u: u}
+}
+
+func (g *bigNet) at(x, y int) int {
+	p := pt(float64(x)*g.u, float64(y)*g.u)
+	if i, ok := g.idx[p]; ok {
+		return i
+	}
+	i := g.b.node(p)
+	g.idx[p] = i
+	return i
+}
+
+// far query points: tens to thousands of units away from every node, in the empty space between
+// roads/towns and outside the network; a quarter/eighth-unit offset keeps them off bisectors
+func (g *bigNet) farQueries(n int) {
+	b, r := g.b, g.b.r
+	minx, miny, maxx, maxy := math.Inf(1), math.Inf(1), math.Inf(-1), math.Inf(-1)
+	for _, p := range b.nodes {
+		minx, maxx = math.Min(minx, p.X), math.Max(maxx, p.X)
+		miny, maxy = math.Min(miny, p.Y), math.Max(maxy, p.Y)
+	}
+	w, h := maxx-minx+64*g.u, maxy-miny+64*g.u
+	far := func() geom.Point {
+		x := minx - w/2 + math.Floor(r.Float()*2*w/g.u)*g.u + g.u/4
+		y := miny - h/2 + math.Floor(r.Float()*2*h/g.u)*g.u + g.u/8
+		return pt(x, y)
+	}
+	for i := 0; i < n; i++ {
+		b.c.qs = append(b.c.qs, query{far(), far(), -1})
+	}
+	// the same far points again earlier in the history (smaller index, other nearest nodes)
+	nl := len(b.c.links)
+	q := b.c.qs[len(b.c.qs)-1]
+	b.c.qs = append(b.c.qs, query{q.from, q.to, r.Range(nl/2, nl-1)})
+}
+
+// long roads: horizontal and vertical chains of nodes every 16 units crossing at shared nodes
+// (60-400 nodes: the node index has several leaves; L-shaped and hollow groups of nodes)
+func genRoads(r *vproto.Rng) *netCase {
+	g := newBig(r, "roads")
+	b := g.b
+	target := r.Range(60, 400)
+	for road := 0; len(b.nodes) < target && road < 40; road++ {
+		horiz := road%2 == 0
+		fixed := 64 * r.Range(-8, 8)
+		start := 16 * r.Range(-30, 10)
+		n := r.Range(8, 50)
+		speed := 1.0
+		if b.c.opt == "T" {
+			speed = pow2(r)
+		}
+		prev := -1
+		for i := 0; i < n && len(b.nodes) < target+10; i++ {
+			var cur int
+			if horiz {
+				cur = g.at(start+16*i, fixed)
+			} else {
+				cur = g.at(fixed, start+16*i)
+			}
+			if prev >= 0 {
+				b.joinExact(prev, cur, 0, speed)
+			}
+			prev = cur
+		}
+	}
+	if r.Bool() {
+		b.shuffleLinks()
+	}
+	g.farQueries(4)
+	b.queries(2, 16*g.u)
+	return b.c
+}
+
+// clustered towns (small dense grids) far apart, joined by single long links
+func genTowns(r *vproto.Rng) *netCase {
+	g := newBig(r, "towns")
+	b := g.b
+	nt := r.Range(4, 14)
+	var gates []int
+	for t := 0; t < nt && len(b.nodes) < 380; t++ {
+		cx, cy := 512*r.Range(-6, 6)+4*r.Range(-20, 20), 512*r.Range(-6, 6)+4*r.Range(-20, 20)
+		w, h := r.Range(2, 6), r.Range(2, 6)
+		speed := func() float64 {
+			if b.c.opt == "T" {
+				return pow2(r)
+			}
+			return 1
+		}
+		for y := 0; y < h; y++ {
+			for x := 0; x < w; x++ {
+				i := g.at(cx+4*x, cy+4*y)
+				if x+1 < w && !r.Chance(0.15) {
+					b.joinExact(i, g.at(cx+4*x+4, cy+4*y), 0, speed())
+				}
+				if y+1 < h && !r.Chance(0.15) {
+					b.joinExact(i, g.at(cx+4*x, cy+4*y+4), 0, speed())
+				}
+			}
+		}
+		gates = append(gates, g.at(cx, cy))
+	}
+	for t := 1; t < len(gates); t++ {
+		if r.Chance(0.85) { // some towns stay unconnected
+			sp := 1.0
+			if b.c.opt == "T" {
+				sp = 8 * pow2(r)
+			}
+			b.joinExact(gates[r.Intn(t)], gates[t], 0, sp)
+		}
+	}
+	if r.Bool() {
+		b.shuffleLinks()
+	}
+	g.farQueries(4)
+	b.queries(2, 4*g.u)
 	return b.c
 }
 
@@ -421,7 +661,7 @@ func corpus() []*netCase {
 	l1 := []geom.Point{pt(0, 0), pt(0, 1), pt(1, 1), pt(8, 1), pt(8, 4)}
 	l2 := []geom.Point{pt(8, 4), pt(8, -6)}
 	l3 := []geom.Point{pt(7.999999999999998, 4), pt(8, -6)}
-	q := query{pt(0, -1), pt(6, -6)}
+	q := query{pt(0, -1), pt(6, -6), -1}
 	// DESIGN 1.1: 6 links, one long direct link against four short ones
 	six := []link{
 		{manhattan(pt(0, 0), pt(20, 0), -45), 1}, // direct, length 45+20+45 = 110
@@ -439,15 +679,20 @@ func corpus() []*netCase {
 	}
 	return []*netCase{
 		mk("example", "T", true, []link{{l1, 6}, {l2, 2}}, q),
-		mk("example", "D", true, []link{{l1, 6}, {l2, 2}}, q, query{q.to, q.from}),
+		mk("example", "D", true, []link{{l1, 6}, {l2, 2}}, q, query{q.to, q.from, -1}),
 		mk("floatingpoint", "T", false, []link{{l1, 6}, {l3, 2}}, q),
-		mk("single", "D", true, []link{{l2, 1}}, query{pt(8, 5), pt(8, -7)}, query{pt(8, 5), pt(8, 3)}),
-		mk("design-six", "D", true, six, query{pt(0, 0), pt(20, 0)}, query{pt(20, 0), pt(0, 0)}, query{pt(0, 1), pt(20, 8)}),
-		mk("design-six", "T", true, six, query{pt(0, 0), pt(20, 0)}),
-		mk("fastslow", "T", true, fast, query{pt(0, 0), pt(16, 0)}, query{pt(16, 0), pt(0, 0)}, query{pt(0, -8), pt(16, 0)}),
-		mk("fastslow", "D", true, fast, query{pt(0, 0), pt(16, 0)}),
+		mk("single", "D", true, []link{{l2, 1}}, query{pt(8, 5), pt(8, -7), -1}, query{pt(8, 5), pt(8, 3), -1}),
+		mk("design-six", "D", true, six, query{pt(0, 0), pt(20, 0), -1}, query{pt(20, 0), pt(0, 0), -1}, query{pt(0, 1), pt(20, 8), -1}),
+		mk("design-six", "T", true, six, query{pt(0, 0), pt(20, 0), -1}),
+		mk("fastslow", "T", true, fast, query{pt(0, 0), pt(16, 0), -1}, query{pt(16, 0), pt(0, 0), -1}, query{pt(0, -8), pt(16, 0), -1}),
+		mk("fastslow", "D", true, fast, query{pt(0, 0), pt(16, 0), -1}),
+		// history: A-B and D-C separate, ask A->C (empty), add B-C, ask again, add A-C, ask again
+		mk("history", "D", true, []link{{manhattan(pt(0, 0), pt(10, 0), 0), 1}, {manhattan(pt(0, 10), pt(10, 10), 0), 1},
+			{manhattan(pt(10, 0), pt(10, 10), 0), 1}, {manhattan(pt(0, 0), pt(0, 10), 0), 1}},
+			query{pt(0, 0), pt(10, 10), 2}, query{pt(0, 0), pt(10, 10), 3}, query{pt(10, 10), pt(0, 0), 3}, query{pt(0, 0), pt(0, 10), 3},
+			query{pt(0, 0), pt(0, 10), 4}, query{pt(0, 0), pt(10, 10), 4}),
 		mk("components", "D", true, []link{{manhattan(pt(0, 0), pt(4, 0), 0), 1}, {manhattan(pt(100, 0), pt(104, 0), 0), 1}},
-			query{pt(0, 0), pt(104, 0)}, query{pt(100, 0), pt(104, 0)}, query{pt(104, 1), pt(3, 1)}),
+			query{pt(0, 0), pt(104, 0), -1}, query{pt(100, 0), pt(104, 0), -1}, query{pt(104, 1), pt(3, 1), -1}),
 	}
 }
 
@@ -455,22 +700,31 @@ func gen(seed uint64, tier string) {
 	out := bufio.NewWriter(os.Stdout)
 	defer out.Flush()
 	r := vproto.NewRng(seed)
-	n := 150
+	n, big := 90, 20
 	if tier == "thorough" {
-		n = 1500
+		n, big = 1200, 150
 	}
 	for _, c := range corpus() {
 		fmt.Fprintln(out, c)
 	}
+	emit := func(c *netCase, p float64) {
+		c.addHistory(r, p)
+		fmt.Fprintln(out, c)
+	}
 	for i := 0; i < n; i++ {
-		fmt.Fprintln(out, genGrid(r, "grid", 1))
-		fmt.Fprintln(out, genDiamond(r))
-		fmt.Fprintln(out, genFastSlow(r))
-		fmt.Fprintln(out, genFloat(r, false))
+		emit(genGrid(r, "grid", 1), 0.5)
+		emit(genDiamond(r), 0.5)
+		emit(genFastSlow(r), 0.5)
+		emit(genFloat(r, false), 0.3)
+		fmt.Fprintln(out, genHistory(r))
 		if i%2 == 0 {
-			fmt.Fprintln(out, genGrid(r, "components", r.Range(2, 3)))
-			fmt.Fprintln(out, genFloat(r, true))
+			emit(genGrid(r, "components", r.Range(2, 3)), 0.6)
+			emit(genFloat(r, true), 0.3)
 		}
+	}
+	for i := 0; i < big; i++ {
+		fmt.Fprintln(out, genRoads(r))
+		fmt.Fprintln(out, genTowns(r))
 	}
 }
 
@@ -561,15 +815,34 @@ func implLine(line string) string {
 	var b strings.Builder
 	var c *netCase
 	var net *route.Network
+	var res []string
 	pan := vproto.Safe(func() {
-		c = parseCase(line)
+		var ops []op
+		c, ops = parseCase(line)
 		opt := route.Distance
 		if c.opt == "T" {
 			opt = route.Time
 		}
-		net = route.NewNetwork(opt)
-		for _, l := range c.links {
-			net.AddLink(geom.LineString(l.pts), l.speed)
+		net = route.NewNetwork(opt) // ONE network value for the whole history
+		for _, o := range ops {
+			if o.isLink {
+				net.AddLink(geom.LineString(o.l.pts), o.l.speed)
+				continue
+			}
+			var rt geom.MultiLineString
+			var d, t, sd, ed float64
+			qp := vproto.Safe(func() { rt, d, t, sd, ed = net.ShortestRoute(o.q.from, o.q.to) })
+			if qp != "" {
+				res = append(res, fmt.Sprintf(" panic %s ;", qp))
+				continue
+			}
+			var rb strings.Builder
+			fmt.Fprintf(&rb, " ok %d", len(rt))
+			for _, ls := range rt {
+				fmt.Fprintf(&rb, " %d", linkIndex(c, ls))
+			}
+			fmt.Fprintf(&rb, " %s %s %s %s ;", vproto.F2H(d), vproto.F2H(t), vproto.F2H(sd), vproto.F2H(ed))
+			res = append(res, rb.String())
 		}
 		dumpGraph(c, net, &b)
 	})
@@ -577,19 +850,8 @@ func implLine(line string) string {
 		return "buildpanic " + pan
 	}
 	b.WriteString(" | R")
-	for _, q := range c.qs {
-		var rt geom.MultiLineString
-		var d, t, sd, ed float64
-		pan := vproto.Safe(func() { rt, d, t, sd, ed = net.ShortestRoute(q.from, q.to) })
-		if pan != "" {
-			fmt.Fprintf(&b, " panic %s ;", pan)
-			continue
-		}
-		fmt.Fprintf(&b, " ok %d", len(rt))
-		for _, ls := range rt {
-			fmt.Fprintf(&b, " %d", linkIndex(c, ls))
-		}
-		fmt.Fprintf(&b, " %s %s %s %s ;", vproto.F2H(d), vproto.F2H(t), vproto.F2H(sd), vproto.F2H(ed))
+	for _, r := range res {
+		b.WriteString(r)
 	}
 	return b.String()
 }
